@@ -103,11 +103,11 @@ func (a1 jsonMultiset) diff(
 		a1Map[hc] = v
 	}
 	a2Counts := make(map[[8]byte]int)
-	a2Map := make(map[[8]byte]JsonNode)
+	a2Nodes := make(map[[8]byte][]JsonNode)
 	for _, v := range a2 {
 		hc := v.hashCode(options)
 		a2Counts[hc]++
-		a2Map[hc] = v
+		a2Nodes[hc] = append(a2Nodes[hc], v)
 	}
 	pathWithMultiset := append(path.clone(), PathMultiset{})
 	e := DiffElement{
@@ -146,8 +146,10 @@ func (a1 jsonMultiset) diff(
 		}
 		added := a2Count - a1Count
 		if added > 0 {
+			// One node of b per added copy: copies that share a
+			// node would share storage in the patched document.
 			for i := 0; i < added; i++ {
-				e.Add = append(e.Add, a2Map[hc])
+				e.Add = append(e.Add, a2Nodes[hc][i])
 			}
 		}
 	}
